@@ -483,15 +483,20 @@ func cropCtts(b *mp4.CttsBox, lastSampleNr uint32) {
 func cropStsc(b *mp4.StscBox, lastSampleNr uint32) error {
 	entryIdx := b.FindEntryNrForSampleNr(lastSampleNr, 0)
 	lastEntry := b.Entries[entryIdx]
-	b.Entries = b.Entries[:entryIdx+1]
-	if len(b.SampleDescriptionID) > 0 {
-		b.Entries = b.Entries[:entryIdx+1]
-	}
+	sdid := b.GetSampleDescriptionID(int(lastEntry.FirstChunk))
 	samplesLeft := lastSampleNr - lastEntry.FirstSampleNr + 1
 	nrChunksInLast := samplesLeft / lastEntry.SamplesPerChunk
 	nrLeft := samplesLeft - nrChunksInLast*lastEntry.SamplesPerChunk
+	nrEntriesKept := entryIdx + 1
+	if nrChunksInLast == 0 {
+		// No complete chunk of the last entry is left. The partial chunk replaces that entry
+		nrEntriesKept = entryIdx
+	}
+	b.Entries = b.Entries[:nrEntriesKept]
+	if len(b.SampleDescriptionID) > 0 {
+		b.SampleDescriptionID = b.SampleDescriptionID[:nrEntriesKept]
+	}
 	if nrLeft > 0 {
-		sdid := b.GetSampleDescriptionID(int(lastEntry.FirstChunk))
 		err := b.AddEntry(lastEntry.FirstChunk+nrChunksInLast, nrLeft, sdid)
 		if err != nil {
 			return fmt.Errorf("stsc AddEntry: %w", err)
